@@ -34,6 +34,7 @@ static inline double vf_c_remainder(double x, double y) {
   double ay = __builtin_fabs(y), ax = __builtin_fabs(x);
   if (ax <= ay / 2) return x;                                  /* n = 0 (ties to even) */
   if (ax < ay + ay / 2) { double q = x > 0 ? x - ay : x + ay; return q == 0.0 ? vf_copysign(0.0, x) : q; }   /* n = +-1: exact by Sterbenz */
+  if (ax == ay + ay / 2) return x > 0 ? -(ay / 2) : ay / 2;    /* tie at 1.5 y: n = +-2 (even) */
   /* deterministic (a function of |x| and |y|) and odd in x, otherwise arbitrary within [-y/2, y/2] */
   double r = __CPROVER_uninterpreted_remainder(ax, ay);
   __CPROVER_assume(!isnan(r) && r >= -ay / 2 && r <= ay / 2);
@@ -95,7 +96,16 @@ static inline double vf_c_pow(double x, double y) { if (y == 0.0 || x == 1.0) re
 #define M_log1p(s,x) vf_c_unary(x)
 #define M_expm1(s,x) vf_c_unary(x)
 #define M_cbrt(s,x) vf_c_unary(x)
-#define M_fmod(s,x,y) vf_c_binary(x,y)
+static inline double vf_c_fmod(double x, double y) {
+  if (isnan(x) || isnan(y) || isinf(x) || y == 0.0) return VF_NAN;
+  if (isinf(y)) return x;
+  double ay = __builtin_fabs(y), ax = __builtin_fabs(x);
+  if (ax < ay) return x;                                        /* |x| < |y|: fmod is the identity */
+  if (ax < ay + ay) { double q = x > 0 ? x - ay : x + ay; return q == 0.0 ? vf_copysign(0.0, x) : q; }   /* one subtraction, exact */
+  double r = nondet_double(); __CPROVER_assume(!isnan(r) && r > -ay && r < ay && (r == 0.0 || (r > 0) == (x > 0)));
+  return r == 0.0 ? vf_copysign(0.0, x) : r;
+}
+#define M_fmod(s,x,y) vf_c_fmod(x,y)
 #define M_fma(s,a,b,c) ((a)*(b)+(c))
 #define M_fmuladd(s,a,b,c) ((a)*(b)+(c))
 #else
